@@ -8,5 +8,6 @@ CONSTANTS
   MaxCalls = 0
   NewestFirst = TRUE
   RoutesFirst = TRUE
+  OtherForAll = FALSE
   StarWithCreds = FALSE
 INVARIANT Emit
